@@ -541,6 +541,38 @@ func TestC09(t *testing.T) {
 			t.Fatalf("frame and its rebuild from observed values are not Equal: %s\n%s", why, desc())
 		}
 		classes := []string{}
+		// Equals between the frame and a sibling derived from it (same column storage, other index)
+		if tab.N() >= 2 {
+			var sib qframe.QFrame
+			var sibDesc string
+			switch rapid.IntRange(0, 2).Draw(t, "sibling") {
+			case 0:
+				sib, sibDesc = d.QF.Sort(qframe.Order{Column: "id", Reverse: rapid.Bool().Draw(t, "sibrev")}), "Sort(id)"
+			case 1:
+				sib, sibDesc = d.QF.Slice(1, tab.N()).Copy("id2", "id").Drop("id2"), "Slice(1,n)"
+			default:
+				sib, sibDesc = d.QF.Filter(qframe.Filter{Column: "id", Comparator: ">=", Arg: 0}), "Filter(id>=0)"
+			}
+			so, err := hx.Observe(sib)
+			if err != nil || sib.Err != nil {
+				t.Fatalf("sibling %s: %v %v\n%s", sibDesc, err, sib.Err, desc())
+			}
+			want := modelEquals(tab, so)
+			ab, ba, why := equalsBoth(d.QF, sib)
+			if ab != want || ba != want {
+				t.Fatalf("Equals(frame, %s of it)=%v/%v, model equality of their observations says %v (%s)\n%s", sibDesc, ab, ba, want, why, desc())
+			}
+			// per column as well: a wrong Equals of one column type must not hide behind the other columns
+			for _, c := range tab.Cols {
+				pa, pb := d.QF.Select(c.Name), sib.Select(c.Name)
+				wantC := modelEquals(tab.Project([]string{c.Name}), so.Project([]string{c.Name}))
+				ab, ba, why := equalsBoth(pa, pb)
+				if ab != wantC || ba != wantC {
+					t.Fatalf("Equals of the projections on %q (%s) of the frame and its %s sibling =%v/%v, model says %v (%s)\n%s", c.Name, c.Kind, sibDesc, ab, ba, wantC, why, desc())
+				}
+			}
+			classes = append(classes, "sibling:"+sibDesc)
+		}
 		if mt, mdesc, ok := mutate(t, tab); ok {
 			what = "mutant: " + mdesc + "\n"
 			mq := hx.Build(mt)
